@@ -551,6 +551,24 @@ def run_case(case):
             slave_r_errs += sum(1 for e in a.log["r"] if e[1] != RESP_OKAY)
     slave_errs = slave_w_errs + slave_r_errs
     stats["slave_errs"] = slave_errs
+    # master-side answers per direction, from the masters' complete logs (the byte-wise judge above stops at its first mismatch,
+    # so its own error counters only cover the history up to there)
+    ms = {"w": [], "r": []}                      # (done cycle, is error)
+    for a in bench.agents["sys"]:
+        if isinstance(a, AXIMaster):
+            ms["w"] += [(e[0], e[1] != RESP_OKAY) for e in a.log["b"]]
+            ms["r"] += [(bu[-1][0], any(x[1] != RESP_OKAY for x in bu)) for bu in a.r_bursts if bu]
+        elif isinstance(a, AXILMaster):
+            ms["w"] += [(e[0], e[1] != RESP_OKAY) for e in a.log["b"]]
+            ms["r"] += [(e[0], e[1] != RESP_OKAY) for e in a.log["r"]]
+        elif isinstance(a, WBMaster):
+            for e in a.log:
+                ms["w" if e["we"] else "r"].append((e["done"], bool(e["err"])))
+        elif isinstance(a, AHBMaster):
+            for e in a.log:
+                ms["w" if e["write"] else "r"].append((e["done"], bool(e["resp"])))
+    stats["err_w"] = sum(1 for _, x in ms["w"] if x)
+    stats["err_r"] = sum(1 for _, x in ms["r"] if x)
     if partner.startswith("err"):
         # per direction: the slave refused several requests of that direction and not one error of that direction reached the
         # master. A later read mismatch (the master believes a refused write took place) is a consequence of the dropped
@@ -587,20 +605,6 @@ def run_case(case):
             elif isinstance(a, (AXILSlave, AXISlave)):
                 sl["w"] += [e[0] for e in a.log["b"] if e[1] != RESP_OKAY]
                 sl["r"] += [e[0] for e in a.log["r"] if e[1] != RESP_OKAY]
-        ms = {"w": [], "r": []}                      # (done cycle, is error)
-        for a in bench.agents["sys"]:
-            if isinstance(a, AXIMaster):
-                ms["w"] += [(e[0], e[1] != RESP_OKAY) for e in a.log["b"]]
-                ms["r"] += [(bu[-1][0], any(x[1] != RESP_OKAY for x in bu)) for bu in a.r_bursts if bu]
-            elif isinstance(a, AXILMaster):
-                ms["w"] += [(e[0], e[1] != RESP_OKAY) for e in a.log["b"]]
-                ms["r"] += [(e[0], e[1] != RESP_OKAY) for e in a.log["r"]]
-            elif isinstance(a, WBMaster):
-                for e in a.log:
-                    ms["w" if e["we"] else "r"].append((e["done"], bool(e["err"])))
-            elif isinstance(a, AHBMaster):
-                for e in a.log:
-                    ms["w" if e["write"] else "r"].append((e["done"], bool(e["resp"])))
         dropped_dir = {"w": slave_w_errs >= 1 and stats.get("err_w", 0) == 0, "r": slave_r_errs >= 1 and stats.get("err_r", 0) == 0}
         for d in ("w", "r"):
             prev = -1
@@ -667,7 +671,7 @@ def run_shard(shard):
             root = {"axi2axil": "slave-queues-requests", "axil_up": "master-overlaps-requests"}.get(cfg["dut"])
             who = root if root in r["tags"] else "%s[%s]" % (cfg["partner"], tag)
             if e["kind"].endswith("error-responses-not-propagated"):
-                who = "any-timing"
+                who = "any-timing[%s]" % cfg["partner"]
             col.violation("%s/%s/%s" % (cfg["dut"], who, e["kind"]), case,
                           "%s: %s" % (cfg, e), {"errors": r["errs"], "partner_behaviour": r["tags"]})
         if r["capped"] and not r["errs"]:
